@@ -380,6 +380,7 @@ def run(tier, seed):
     inst = build_instances(tier, seed, targets, (two_qubit_states, u2, u1))
 
     # ---- phase 2: run the templates, record what they emit
+    attempted = set()                      # templates with a raising decomposition source: reported as violations, not as vacuity
     viol, cases, owners = [], [], []          # owners[i] = (instance index, source name) of TLC case i
     dev_states, float_srcs = {}, []
     for ii, it in enumerate(inst):
@@ -401,6 +402,7 @@ def run(tier, seed):
         seen = []
         for sname, ops in srcs:
             if isinstance(ops, Exception):
+                attempted.add(it["tmpl"])
                 viol.append(Violation(key=f"{it['tmpl']}:{sname}:raises:{type(ops).__name__}",
                                       detail=f"{sname} of {it['op']} raised {type(ops).__name__}: {ops}",
                                       replay={"op": it["op"], "source": sname}))
@@ -566,7 +568,7 @@ def run(tier, seed):
     neg_rej["comparator"] = 1
 
     templates = sorted({it["tmpl"] for it in inst})
-    missing = [t for t in templates if per_tmpl.get(t, 0) == 0]
+    missing = [t for t in templates if per_tmpl.get(t, 0) == 0 and t not in attempted]
     if missing:
         raise lib.MachineryError(f"vacuous: no decomposition validated for {missing}")
     cov = {"states": states, "transitions": trans, "traces_validated_against_impl": n_exact + n_bridge + n_dev,
